@@ -30,7 +30,7 @@ from vf.ref import c29_relay as ref
 PROPERTY = "C29"
 LEVEL = "fault_enumeration"
 ENGINE = "sansio"
-BUDGET = {"quick": (1500, 18), "thorough": (60000, 200)}
+BUDGET = {"quick": (2000, 18), "thorough": (60000, 200)}
 WORKERS = {"quick": 4, "thorough": 16}
 REQUIRED = ["source", "exact", "halfclose", "single_end", "after_end", "fault.open_failed", "fault.client_eof_first", "fault.server_eof_first", "fault.eof_during_pending_hook", "injected"]
 TECHNIQUE = "runtime monitoring: fault-plan sweep on the sans-io driver + reference relay model over the delivered event sequence"
